@@ -30,7 +30,7 @@ LEVEL_ASSUMPTIONS = [
     "private collection lists are read (read-only) through their mangled "
     "names; if they are renamed the ghost read falls back to "
     "get_differentials() on a probe"]
-REQUIRED = {"surrogate_after_run_probes": 3, "surrogate_runs_stopped_during_model_phase": 1,
+REQUIRED = {"evaluations_on_copied_objectives": 4, "surrogate_after_run_probes": 3, "surrogate_runs_stopped_during_model_phase": 1,
             "histories": 20, "events_checked": 300, "mode_switches": 40,
             "raw_evaluates_after_model_mode": 20, "failure_values_1e200": 5,
             "per_case_j_recomputed": 100, "surrogate_histories": 1,
@@ -483,6 +483,69 @@ def random_history(ctx, rng):
     return case
 
 
+def copied_objective(ctx, rng):
+    """A deep copy / an unpickled copy of an objective that already holds
+    data: evaluating on the copy leaves the original alone, and the copy
+    goes on like the object it was copied from. (A copy that cannot be made
+    is not a verdict.)"""
+    import copy
+    import pickle
+
+    from moptipyapps.dynamic_control.controllers.linear import linear
+    from moptipyapps.dynamic_control.controllers.ann import make_ann
+    from moptipyapps.dynamic_control.objective import (
+        FigureOfMerit,
+        FigureOfMeritLE,
+    )
+    from moptipyapps.dynamic_control.system_model import SystemModel
+    from moptipyapps.dynamic_control.systems.stuart_landau import (
+        make_stuart_landau,
+    )
+    sysm = make_stuart_landau(4)
+    setattr(sysm, "training_starting_states",
+            np.array(sysm.training_starting_states[0:2]))
+    setattr(sysm, "training_steps", 12)
+    setattr(sysm, "training_time", 2.0)
+    ctrl = linear(sysm)
+    inst = SystemModel(sysm, ctrl, make_ann(
+        sysm.state_dims + sysm.control_dims, sysm.state_dims, []))
+    cls = FigureOfMeritLE if rng.integers(2) else FigureOfMerit
+    dim = ctrl.parameter_space().dimension
+    case = ctx.shard_replay_case(what="copied-objective", cls=cls.__name__)
+    for how, fn in (("deepcopy", copy.deepcopy),
+                    ("pickle", lambda o: pickle.loads(pickle.dumps(o)))):
+        obj = cls(inst, True)
+        ref = Reference(ctx, cls, inst, True)
+        x1 = np.array(rng.uniform(-1.0, 1.0, dim))
+        x2 = np.array(rng.uniform(-1.0, 1.0, dim))
+        obj.evaluate(x1)
+        g0 = ghost(obj)
+        try:
+            twin = fn(obj)
+            v = twin.evaluate(x2)
+            gt = ghost(twin)
+        except Exception:  # noqa: BLE001
+            ctx.count(f"objective_not_clonable[{how}]")
+            continue
+        ctx.case()
+        ctx.count("evaluations_on_copied_objectives")
+        r1, r2 = ref.raw_rows(x1), ref.raw_rows(x2)
+        want = ref.value("raw", None, x2)
+        g1 = ghost(obj)
+        if g1 != g0:
+            ctx.violation(
+                "collection-changed-outside-raw-evaluate",
+                f"evaluating on a {how} copy changed the data of the "
+                f"original: {g0[0]} -> {g1[0]} rows", case)
+        elif v != want or gt is None or r1 is None or r2 is None or \
+                gt[0] != r1[0] + r2[0]:
+            ctx.violation(
+                "copied-objective-differs",
+                f"{how} copy: evaluate = {v!r} (fresh objective {want!r}), "
+                f"holds {gt[0] if gt else None} rows, expected "
+                f"{(r1[0] + r2[0]) if r1 and r2 else None}", case)
+
+
 SURR: dict = {}
 
 
@@ -721,6 +784,7 @@ def run_shard(ctx, args):
             ctx.sample({k: case[k] for k in ("instance", "cls", "collecting",
                                              "steps", "cases")}
                        | {"ops": case["ops"][:14]})
+    copied_objective(ctx, rng)
     for _ in range(args["surrogate"]):
         surrogate_history(ctx, rng)
 
